@@ -10,6 +10,7 @@ ANY = "Exception*"
 
 # callee (fully qualified through the importing module) -> classes it may raise for *input-dependent* arguments
 EXTERNAL = {
+    "os.path.getsize": ("builtins.OSError",), "os.stat": ("builtins.OSError",),  # a path that does not exist
     # number / character conversion of CID or data text
     "builtins.int": ("builtins.ValueError",),  # int("x"), int("07", 0)
     "builtins.chr": ("builtins.ValueError", "builtins.OverflowError"),  # chr(0x110000), chr(10**30)
@@ -52,10 +53,11 @@ NO_RAISE = {
     "builtins.list": "iteration only (a raising iterator is followed through its own call)", "builtins.tuple": "iteration only",
     "builtins.set": "elements are texts / tuples of texts (hashable)", "builtins.sorted": "elements are texts of one kind",
     "builtins.max": "always called with two arguments", "builtins.min": "always called with two arguments",
-    "builtins.next": "token loops stop at the end marker the tokenizer always delivers: decided by the token-sequence tables "
-                     "(C01 O1.5, C02 O2.8/O2.9, C09 O9.7, C11 O11.3), where a StopIteration is a reported outcome",
+    "builtins.next": "only next(<token stream>) and next(x, default): token loops stop at the end marker the tokenizer always "
+                     "delivers - decided by the token-sequence tables (C01 O1.5, C02 O2.8/O2.9, C09 O9.7, C11 O11.3), where a "
+                     "StopIteration is a reported outcome; any other next(x) raises StopIteration (lookup_external)",
     "builtins.ord": "every call is dominated by a len(...) == 1 test or iterates the characters of a text (C01 O1.6, C11 O11.3)",
-    "builtins.range": "integer arguments", "builtins.repr": "total", "builtins.str": "total", "builtins.sum": "of integers",
+    "builtins.iter": "of texts, lists and iterators (iterables)", "builtins.range": "integer arguments", "builtins.repr": "total", "builtins.str": "total", "builtins.sum": "of integers",
     "builtins.super": "total", "builtins.type": "total", "builtins.zip": "lazy", "builtins.getattr": "with default or a known name",
     "builtins.hasattr": "total", "builtins.bool": "total", "builtins.print": "diagnostics",
     "builtins.EnvironmentError": "constructor", "builtins.NameError": "constructor", "builtins.NotImplementedError": "constructor",
@@ -76,7 +78,7 @@ NO_RAISE = {
     "logging.basicConfig": "set-up", "logging.getLogger": "set-up",
     "os.makedirs": "writes: only the --create / plugin helpers, not reading a CID or data",
     "os.path.abspath": "path text", "os.path.basename": "path text", "os.path.join": "path texts", "os.path.splitext": "path text",
-    "os.path.dirname": "path text", "os.path.exists": "total", "pathlib.Path": "path text",
+    "os.path.dirname": "path text", "os.path.exists": "total", "os.path.isfile": "total", "os.path.isdir": "total", "pathlib.Path": "path text",
     "sys.exc_info": "total", "sys.exit": "SystemExit is the purpose", "traceback.extract_stack": "diagnostics",
     "tokenize.ISEOF": "total", "tokenize.TokenError": "constructor", "xlrd.error_text_from_code.get": "dict look-up with default",
 }
@@ -148,7 +150,36 @@ REFLECTIVE_CONSTRUCTORS = {
 }
 
 
-def lookup_external(name, call):
+TOKEN_STREAM_SOURCES = ("generated_tokens", "tokenize_without_space", "generate_tokens")
+
+
+def _is_token_stream(call, func):
+    """next(name) where ``name`` is assigned, in the same function, only from one of the tokenizer functions."""
+    if func is None or len(call.args) != 1 or not isinstance(call.args[0], ast.Name):
+        return False
+    name = call.args[0].id
+    sources = []
+    for node in ast.walk(func.node):
+        if isinstance(node, ast.Assign) and any(isinstance(target, ast.Name) and target.id == name for target in node.targets):
+            sources.append(node.value)
+        elif isinstance(node, (ast.For, ast.comprehension)) and any(isinstance(t, ast.Name) and t.id == name for t in ast.walk(node.target)):
+            return False
+    if not sources:
+        return False
+    for value in sources:
+        callee = dotted(value.func) if isinstance(value, ast.Call) else None
+        if callee is None or callee.split(".")[-1] not in TOKEN_STREAM_SOURCES:
+            return False
+    return True
+
+
+def lookup_external(name, call, func=None):
+    if name == "builtins.next":
+        # with a default nothing is raised; on a token stream the end marker comes first (token-sequence tables); anything
+        # else runs off the end of its iterator - inside a generator that surfaces as RuntimeError
+        if len(call.args) >= 2 or _is_token_stream(call, func):
+            return ()
+        return ("builtins.StopIteration",)
     classes = EXTERNAL.get(name)
     if classes is None:
         return ()
